@@ -11,6 +11,7 @@ import (
 	"unsafe"
 
 	"github.com/cloudwego/dynamicgo/conv"
+	"github.com/cloudwego/dynamicgo/meta"
 	"github.com/cloudwego/dynamicgo/conv/j2p"
 	"github.com/cloudwego/dynamicgo/conv/j2t"
 	"github.com/cloudwego/dynamicgo/conv/p2j"
@@ -371,6 +372,15 @@ func thriftTargets(r *h.Rand, desc *thrift.TypeDescriptor, v *tref.Val, root *ge
 				generic.NewNode(thrift.STRUCT, in).GetByPath(gp...)
 			}
 		}},
+		{"thrift.generic.Value.GetByPath(name)", func(in []byte) {
+			val := generic.NewValue(desc, in)
+			for _, p := range paths {
+				x := val.GetByPath(toGenericPath(p, root, true)...)
+				if !x.IsError() {
+					x.Interface(gopts)
+				}
+			}
+		}},
 		{"thrift.generic.Value.MarshalTo", func(in []byte) { generic.NewValue(desc, in).MarshalTo(desc, gopts) }},
 		{"thrift.generic.Node.Fields-Foreach", func(in []byte) {
 			n := generic.NewNode(thrift.STRUCT, in)
@@ -502,7 +512,7 @@ func runC06(c *h.Ctx) {
 	c.Run("thrift", c.N(5000, 250000), func(cs *h.Case) {
 		sc := gen.GenSchema(cs.R, gen.Cfg{MaxDepth: 3, MaxFields: 5, BigIDs: true, Recursive: true, StructKeys: cs.R.Chance(30)})
 		root := structType(sc.Root)
-		desc, _, err := ParseRoot(sc, thrift.NewDefaultOptions())
+		desc, svc, err := ParseRoot(sc, thrift.NewDefaultOptions())
 		if err != nil {
 			cs.Viol("robust:parse-idl", "err", err)
 			return
@@ -510,6 +520,23 @@ func runC06(c *h.Ctx) {
 		cs.Info("idl", sc.IDL())
 		v := gen.GenVal(cs.R, root, gen.ValCfg{MaxElems: 4, MaxStr: 40, NonFinite: true, InvalidUTF8: true}, 0)
 		b := tref.Encode(v)
+		// the HTTP response converter on top of the envelope parser: every message type (CALL, REPLY, EXCEPTION,
+		// ONEWAY, undefined ones) with every kind of result-field id (0, a small one, undeclared, negative)
+		var httpT c06Target
+		if fn, _ := svc.LookupFunctionByMethod("M"); fn != nil {
+			hc := t2j.NewHTTPConv(meta.EncodingThriftBinary, fn)
+			into := cs.R.Bool()
+			hopts := conv.Options{WriteDefaultField: cs.R.Bool(), DisallowUnknownField: cs.R.Bool()}
+			httpT = c06Target{"t2j.HTTPConv.Do+envelope", func(in []byte) {
+				resp := dhttp.NewHTTPResponse()
+				if into {
+					var buf []byte
+					hc.DoInto(context.Background(), resp, in, &buf, hopts)
+				} else {
+					hc.Do(context.Background(), resp, in, hopts)
+				}
+			}}
+		}
 		var muts []c06Mut
 		muts = append(muts, thriftMuts(cs.R, b, v, 4)...)
 		muts = append(muts, genericMuts(cs.R, b, 3, "thrift")...)
@@ -528,7 +555,16 @@ func runC06(c *h.Ctx) {
 			cs.Info("mutation", m.class)
 			in := m.b
 			t := ts[cs.R.Intn(len(ts)-1)]
-			if wrap {
+			if wrap && httpT.run != nil && cs.R.Bool() {
+				mt := []byte{0, 1, 2, 2, 3, 4, 5, 255}[cs.R.Intn(8)]
+				id := []int16{0, 0, 1, 2, 255, 32767, -1}[cs.R.Intn(7)]
+				in = tref.WrapMessage("M", mt, 7, id, m.b)
+				if cs.R.Chance(30) {
+					in = genericMuts(cs.R, in, 1, "envelope")[0].b
+				}
+				t = httpT
+				cs.Cover(fmt.Sprintf("http_envelope_type_%d", mt))
+			} else if wrap {
 				in = tref.WrapMessage("Method", 1, 7, 0, m.b)
 				in = genericMuts(cs.R, in, 1, "envelope")[0].b
 				t = ts[len(ts)-1]
